@@ -5,7 +5,7 @@
 void h_apply(void)
 {
   crypto__Key in_key; crypto__Nonce in_nonce; uint32_t in_counter; uint64_t in_n;
-  __CPROVER_assume(in_n >= 1 && in_n <= 0x00FFFFFFFFFFFFFFul);
+  __CPROVER_assume(in_n >= 1 && in_n <= 0x00007FFFFFFFFFFFul);
   uint8_t *in_data = malloc(in_n);
   __CPROVER_assume(in_data != 0);
   vec_u8 out = {0};
